@@ -165,8 +165,15 @@ def rule_disp(repo):
                 else:
                     neg += 1
         if sel is not None and ex == 'return':
-            ret = [e[1] for e in ev if e[0] == 'stmt' and isinstance(e[1], ast.Return)][-1]
-            seen[sel] = dotted(ret.value.func) if isinstance(ret.value, ast.Call) else None
+            from ..expr import Inliner
+            inl_ = Inliner()
+            rvv = None
+            for e in ev:
+                if e[0] == 'stmt' and isinstance(e[1], ast.Return):
+                    rvv = inl_.value(e[1].value) if e[1].value is not None else None
+                elif e[0] == 'stmt':
+                    inl_.feed(e[1])
+            seen[sel] = dotted(rvv.func) if isinstance(rvv, ast.Call) else None
         if sel is None and neg >= 4:
             fallthrough_raises = (ex == 'raise')
     for lt, conv in want.items():
